@@ -62,7 +62,7 @@ func classify(s *Spec, t *Taint, inMark bool) {
 	}
 	N := func(i int) { mark(t.Neutral, s.S[i]) }
 	switch s.K {
-	case "new", "wrap", "withmsg", "wrapferr":
+	case "new", "wrap", "withmsg", "wrapferr", "newfwerr":
 		Sf(0)
 	case "newf", "assertf", "wrapf", "withmsgf", "safedetails", "assertwrap", "newfw", "newfwsuffix":
 		Sf(0)
@@ -73,8 +73,8 @@ func classify(s *Spec, t *Taint, inMark bool) {
 		Sf(1)
 		Sf(2)
 	case "domnew", "goerr", "pkgnew", "grpcstatus", "gogostatus", "unknownnet", "uleafptr", "uleafval", "uleafnc", "uleaffmtold", "rleaf", "risleaf", "uoptleaf",
-		"hint", "detail", "handledmsg", "goerrorf", "goerrorfsuffix", "pkgmsg", "pkgwrap", "uwrapnofmt", "uwrapcause", "uwrapsuffix", "uwrapoverride", "uopt", "uwrapfmtold", "rwrapfull",
-		"goerrorfmulti", "umulti", "rmulti":
+		"hint", "detail", "handledmsg", "goerrorf", "goerrorfsuffix", "pkgmsg", "pkgwrap", "uwrapnofmt", "uwrapcause", "uwrapsuffix", "uwrapoverride", "uopt", "uwrapfmtold", "rwrapfull", "uwrapasself", "uleafas",
+		"goerrorfmulti", "umulti", "rmulti", "umulticause":
 		U(0)
 	case "addrerr", "dnsleaf", "dnswrap", "uleafformatter", "uwrapformatter", "uhinter":
 		U(0)
@@ -105,10 +105,13 @@ func classify(s *Spec, t *Taint, inMark bool) {
 	case "tags":
 		for i := 0; 2*i < len(s.S); i++ {
 			Sf(2 * i)
-			if s.I[i] == 1 {
-				N(2*i + 1)
-			} else {
+			switch s.I[i] {
+			case 0:
 				U(2*i + 1)
+			case 2:
+				Sf(2*i + 1) // a value the caller declared safe
+			default:
+				N(2*i + 1) // not used, or only its length
 			}
 		}
 	case "ospath":
